@@ -357,6 +357,8 @@ impl<'a> VisitMut for Rw<'a> {
 /// Pass 1: number loops (pre-order), insert `__VX_LOOP_n;` markers, wrap `for` iterables
 /// that need a named iterator, and insert `__VX_AT_k;` markers at the requested anchors.
 pub struct Marker {
+    /// loop ordinal -> function applied to the iterable of that `for` loop (R6: `for x in E` -> `for x in f(E)`)
+    pub wrap_iter: HashMap<usize, String>,
     pub next_loop: usize,
     pub named_iter: HashSet<usize>,
     pub ats: Vec<(AtAnchor, usize)>, // anchor, marker id
@@ -417,6 +419,13 @@ impl VisitMut for Marker {
                 let n = self.next_loop;
                 self.next_loop += 1;
                 self.loops.push((n, line, "for".into()));
+                if let Some(fname) = self.wrap_iter.get(&n) {
+                    if let Ok(fp) = parse_str::<syn::Path>(fname) {
+                        let it = &f.expr;
+                        let ne: Expr = parse_quote!(#fp(#it));
+                        f.expr = Box::new(ne);
+                    }
+                }
                 if self.named_iter.contains(&n) {
                     let id = Ident::new(&format!("__VX_IT_{n}"), Span::call_site());
                     let it = &f.expr;
@@ -523,6 +532,52 @@ impl VisitMut for ForEach {
                             *e = ne;
                         }
                     }
+                }
+            }
+        }
+    }
+}
+
+/// R11c: Option-combinator desugaring (opt-in per function, because the receiver type is not known syntactically):
+///   R.and_then(|p| B) -> match R { Some(p) => B, None => None }      R.map(|p| B) -> match R { Some(p) => Some(B), None => None }
+///   R.ok_or_else(|| B) -> R.ok_or(B)    R.unwrap_or_else(|| B) -> R.unwrap_or(B)    R.or_else(|| B) -> match R { Some(v) => Some(v), None => B }
+/// Closures containing `return` or `?` are left alone.
+pub struct OptDesugar {
+    pub methods: HashSet<String>,
+    pub log: Vec<serde_json::Value>,
+}
+struct HasReturnOrTry(bool);
+impl<'ast> syn::visit::Visit<'ast> for HasReturnOrTry {
+    fn visit_expr_return(&mut self, _: &'ast ExprReturn) { self.0 = true; }
+    fn visit_expr_try(&mut self, _: &'ast ExprTry) { self.0 = true; }
+}
+impl VisitMut for OptDesugar {
+    fn visit_expr_mut(&mut self, e: &mut Expr) {
+        visit_mut::visit_expr_mut(self, e);
+        if let Expr::MethodCall(m) = e {
+            let name = m.method.to_string();
+            if !self.methods.contains(&name) || m.args.len() != 1 {
+                return;
+            }
+            if let Expr::Closure(c) = &m.args[0] {
+                let mut hr = HasReturnOrTry(false);
+                syn::visit::Visit::visit_expr(&mut hr, &c.body);
+                if hr.0 {
+                    return;
+                }
+                let recv = &m.receiver;
+                let body = &c.body;
+                let ne: Option<Expr> = match (name.as_str(), c.inputs.len()) {
+                    ("and_then", 1) => { let p = &c.inputs[0]; Some(parse_quote!(match #recv { Some(#p) => #body, None => None })) }
+                    ("map", 1) => { let p = &c.inputs[0]; Some(parse_quote!(match #recv { Some(#p) => Some(#body), None => None })) }
+                    ("ok_or_else", 0) => Some(parse_quote!(#recv.ok_or(#body))),
+                    ("unwrap_or_else", 0) => Some(parse_quote!(#recv.unwrap_or(#body))),
+                    ("or_else", 0) => Some(parse_quote!(match #recv { Some(__vx_v) => Some(__vx_v), None => #body })),
+                    _ => None,
+                };
+                if let Some(ne) = ne {
+                    self.log.push(json!({"rule": "R11", "src_line": line_of(m.method.span()), "before": norm(&e.to_token_stream()), "after": format!("Option::{name} desugared into match / eager argument")}));
+                    *e = ne;
                 }
             }
         }
